@@ -44,6 +44,12 @@ def parseUtxo (s : String) : Option (Nat × Nat × Bool) :=
   | [o, h, cb] => do let o ← idOf o; let h ← h.toNat?; pure (o, h, cb == "1")
   | _ => none
 
+/-- `<excess>:<height>`: an NRD kernel excess on the chain path of the head, most recent first -/
+def parseNrd (s : String) : Option (String × Nat) :=
+  match s.splitOn ":" with
+  | [ex, h] => h.toNat?.map fun h => (ex, h)
+  | _ => none
+
 def parseSrc (s : String) : Option Src :=
   match s with
   | "P" => some .pushApi | "B" => some .broadcast | "F" => some .fluff
@@ -118,10 +124,11 @@ def handle (st : St) (args : List String) (impl : String) : St × Verdict :=
       ({ st with ctx := { st.ctx with outs := st.ctx.outs ++ [{ id, cb := cb == "1", v }] } }, .ok)
     | _, _, _ => (st, .unknown)
   | "head" :: _ :: rest =>
-    match kvNat rest "h", kvNat rest "ver", (kv rest "utxo").bind (fun s => (listItems s).mapM parseUtxo) with
-    | some h, some ver, some utxo =>
-      ({ st with ctx := { st.ctx with head := { utxo, nrd := [], height := h }, ver } }, .ok)
-    | _, _, _ => (st, .unknown)
+    match kvNat rest "h", kvNat rest "ver", (kv rest "utxo").bind (fun s => (listItems s).mapM parseUtxo),
+          ((kv rest "nrd").getD "[]" |> listItems).mapM parseNrd with
+    | some h, some ver, some utxo, some nrd =>
+      ({ st with ctx := { st.ctx with head := { utxo, nrd, height := h }, ver } }, .ok)
+    | _, _, _, _ => (st, .unknown)
   | "tx" :: t :: rest =>
     match idOf t, (kv rest "ins").bind (fun s => (listItems s).mapM idOf),
           (kv rest "outs").bind (fun s => (listItems s).mapM idOf),
